@@ -380,3 +380,44 @@ class Program:
             r = c
             s._resolve[key] = r
         return r
+
+
+def cleanup_audit(P, modules):
+    """C18 side condition: unwinding out of an operation because a *call* panicked must not touch the collection.  Every cleanup
+    block reachable from the unwind edge of a call (user callbacks and crate functions containing them) may only drop locals,
+    branch on local drop flags, assign plain locals and resume.  (Cleanup edges of `drop` terminators - a panicking Drop of a stored
+    value - are outside C18.)  Returns (offending statements, number of cleanup blocks audited)."""
+    bad = []
+    n_blocks = 0
+    for name, fn in P.fns.items():
+        if not any(name.startswith(m + '::') for m in modules):
+            continue
+        work = []
+        for bb in fn.blocks:
+            for st in P.block(fn, bb):
+                if st[0] == 'call' and st[5] and st[5].startswith('bb'):
+                    work.append(st[5])
+        seen = set()
+        while work:
+            bb = work.pop()
+            if bb in seen or bb not in fn.blocks:
+                continue
+            seen.add(bb)
+            n_blocks += 1
+            for st in P.block(fn, bb):
+                k = st[0]
+                if k == 'goto':
+                    work.append(st[1]); continue
+                if k in ('resume', 'nop', 'unreachable'):
+                    continue
+                if k == 'drop' and all(p[0] == 'field' for p in st[1][1]):
+                    if st[2]:
+                        work.append(st[2])
+                    continue
+                if k == 'switch' and st[1][0] in ('copy', 'move') and not st[1][1][1]:
+                    work += [t for _, t in st[2]] + ([st[3]] if st[3] else [])
+                    continue
+                if k == 'assign' and not st[1][1] and st[2][0] in ('use', 'binop', 'unop'):
+                    continue
+                bad.append(f'{name} {bb}: {st}')
+    return bad, n_blocks
